@@ -388,7 +388,7 @@ fn generate(tier: Tier, rng: &mut Rng, emit: &mut Emit) {
     shaped(rng, emit);
     let n = match tier {
         Tier::Quick => 6000,
-        Tier::Thorough => 120_000,
+        Tier::Thorough => 100_000,
     };
     let cfgs = configs();
     for k in 0..n {
